@@ -655,8 +655,11 @@ class Fn:
         if k == 'ref' or k == 'rawptr':
             return E('ref', a=self.place_expr(rv['pl'], depth, stack), info={'mut': rv.get('mut'), 'raw': k == 'rawptr'})
         if k == 'binop':
-            return E('binop', op=rv['op'], a=self.operand_expr(rv['a'], depth, stack),
-                     b=self.operand_expr(rv['b'], depth, stack))
+            a, b = self.operand_expr(rv['a'], depth, stack), self.operand_expr(rv['b'], depth, stack)
+            if rv['op'] in ('Shr', 'ShrUnchecked') and b.kind == 'const' and isinstance(b.info.get('int'), int) and 0 < b.info['int'] < 64:
+                # x >> k on the unsigned sizes and counts of this workspace is x / 2^k: one spelling for the rules
+                return E('binop', op='Div', a=a, b=E('const', info={'int': 2 ** b.info['int'], 'ty': b.info.get('ty', 'usize'), 'from_shift': True}))
+            return E('binop', op=rv['op'], a=a, b=b)
         if k == 'unop':
             return E('unop', op=rv['op'], a=self.operand_expr(rv['a'], depth, stack))
         if k == 'cast':
@@ -1010,6 +1013,9 @@ class Program:
         for f in sorted(glob.glob(os.path.join(facts_dir, '*.json'))):
             with open(f) as fh:
                 texts.append(fh.read())
+        if normalise:
+            from . import normalize as _nz
+            texts = [_nz.apply_callee_aliases(t) for t in texts]
         crates = [json.loads(t) for t in texts]
         table = None
         if normalise:
@@ -1023,6 +1029,7 @@ class Program:
                 crates = [json.loads(normalize.apply_renames(t, self.renamed)) for t in texts]
             self.renamed_fields = normalize.rename_private_fields(crates, table)
             self.inlined = normalize.inline_new_helpers(crates, table)
+            self.inlined += [(c, [f]) for c, f in normalize.inline_local_closure_calls(crates, table)]
         for d in crates:
             crate = d['crate']
             self.crates.append(crate)
